@@ -273,3 +273,152 @@ Proof.
   - unfold lens. rewrite H4, H5. cbn [init_sstate fz_instr fz_data]. rewrite !repeat_length, Q2, Q3. split; [exact P2|split; reflexivity].
 Qed.
 End Runs2.
+
+(* hypotheses about a program, in terms of what Resolver2.prepare makes of it *)
+Definition wf2 (opt : bool) (defs : list ruledef) (ps : list pnode) : Prop :=
+  (opt = true -> C01Sound.pats_ok defs = true) /\
+  forall m ns, prepare ps = Some (m, ns) ->
+    reserved_free2 m /\
+    (forall w d e c, In (XData w d e, c) ns -> data_known e = true -> elem_strict_ok w e = true) /\
+    (opt = true -> forall s d0 e c, In (XConst s d0 e, c) ns -> asm_call_free e = true).
+
+Section Final2.
+Variable indexed : bool.
+Variable defs : list ruledef.
+Variable ps : list pnode.
+Variables ac pc opt : bool.
+Hypothesis Hwf : wf2 opt defs ps.
+Hypothesis Hflags : opt = true -> ac = true /\ pc = true.
+
+Lemma runs2 :
+  (forall b, assembleS2 ac pc opt indexed defs ps b = Err /\ assemble2 indexed defs ps b = Err) \/
+  exists m ns banks x1 K,
+    Inv2 m defs max_bits ns K opt x1 /\ labels_ok2 ns (ss x1) /\ syms_distinct2 ns /\ reserved_free2 m /\
+    (forall r, nth_error (k_sym K) r = Some true -> exists d0 e c, In (XConst r d0 e, c) ns /\ const_known e = true) /\
+    (forall w d e c, In (XData w d e, c) ns -> data_known e = true -> elem_strict_ok w e = true) /\
+    (forall w d e c, In (XData w d e, c) ns -> flag (k_data K) d = true -> data_known e = true) /\
+    (opt = true -> canonical2 ns) /\
+    forall b, assembleS2 ac pc opt indexed defs ps b = outT2 m banks ns (loop2S m banks defs max_bits K opt ns b 0 b x1) /\
+              assemble2 indexed defs ps b = outF2 m banks ns (loop2 m banks defs max_bits ns b 0 b (ss x1)).
+Proof.
+  destruct Hwf as [Hpats Hw]. unfold assembleS2, assemble2, setup.
+  destruct (prepare ps) as [[m ns]|] eqn:P; [|left; auto].
+  destruct (Hw m ns eq_refl) as (Hres & Hok & Hasm).
+  destruct (prepare_facts _ _ _ P) as (Hc & _ & _ & _ & Hm). rewrite Hm.
+  destruct (init_state2 indexed defs (length (Symbols.m_decls m)) ns) as [st0|] eqn:E0; [|left; auto].
+  pose proof (prepass2 indexed defs ps ac pc opt m ns P Hok Hflags Hasm Hpats st0 E0) as H.
+  destruct (simple_loop2 (S (length ns)) m ns st0 0) as [st1|]; [|left; intro b; rewrite H; auto].
+  destruct H as (x1 & H1 & H2 & HI & Hl). rewrite H1. subst st1.
+  destruct (define_banks m (ss x1) (bank_fields ps)) as [bs|]; [|left; auto].
+  right. exists m, ns, (Cursor.default_bank :: bs), x1, (known_info2 ac pc defs m (map snd (flat_map inode ns)) ns st0).
+  split; [exact HI|]. split; [exact Hl|]. split; [exact (prepare_distinct _ _ _ P)|]. split; [exact Hres|].
+  split; [exact (HKsym2 defs ac pc m ns st0)|]. split; [exact Hok|].
+  split; [exact (HKdata2 defs ps ac pc m ns P st0)|]. split; [intros _; exact Hc|].
+  intro b. split.
+  - unfold outT2, outF2. destruct (loop2S m (Cursor.default_bank :: bs) defs max_bits _ opt ns b 0 b x1) as [[x n]| |]; reflexivity.
+  - reflexivity.
+Qed.
+End Final2.
+
+Lemma ft2 {P : Prop} : false = true -> P.
+Proof. discriminate. Qed.
+
+(* with the optimisation off, ResolverS2 is Resolver2 (result, pass count, panics included) *)
+Theorem assembleS2_off ac pc indexed defs ps b : wf2 false defs ps ->
+  assembleS2 ac pc false indexed defs ps b = assemble2 indexed defs ps b.
+Proof.
+  intro Hwf. destruct (runs2 indexed defs ps ac pc false Hwf ft2) as [Hn|(m & ns & banks & x1 & K & HI & Hl & Hd & Hres & HKs & Hok & HKd & Hc & Hb)].
+  - destruct (Hn b) as [-> ->]. reflexivity.
+  - destruct (Hb b) as [-> ->]. apply lockstep2_out.
+    exact (loop_off2 m banks defs max_bits ns K Hres HKs false Hok HKd Hc b x1 eq_refl HI).
+Qed.
+
+Section Switch2.
+Variable indexed : bool.
+Variable defs : list ruledef.
+Variable ps : list pnode.
+Hypothesis Hwf : wf2 true defs ps.
+
+Notation ON b := (assembleS2 true true true indexed defs ps b).
+Notation OFF b := (assemble2 indexed defs ps b).
+
+(* FULL STATEMENT (as for the Resolver fragment): for every budget b,  ON b = OFF b  \/  the one-pass situation (at
+   b = 1: the unoptimised run fails; at b >= 2: same result in exactly two passes)  \/  (2 <= b and neither run is Ok).
+   Proved here: everything except, in the last alternative, that OFF b is not Ok (it needs the replay lemma of
+   Proofs/ResolverSFrameP.v lifted to cursors and banks). *)
+Theorem switch2_partial b :
+  ON b = OFF b \/
+  (b = 1%nat /\ OFF b = Err /\ forall r, ON b = Ok r -> r_iters r = 1%nat) \/
+  ((2 <= b)%nat /\ exists r, ON b = Ok r /\ r_iters r = 1%nat /\ OFF b = Ok (set_iters r 2)) \/
+  ((2 <= b)%nat /\ forall r, ON b <> Ok r).
+Proof.
+  destruct (runs2 indexed defs ps true true true Hwf (fun _ => conj eq_refl eq_refl))
+    as [Hn|(m & ns & banks & x1 & K & HI & Hl & Hd & Hres & HKs & Hok & HKd & Hc & Hb)].
+  - left. destruct (Hn b) as [-> ->]. reflexivity.
+  - destruct (Hb b) as [ET EF]. rewrite ET, EF. clear Hb ET EF.
+    destruct (loop_cases2 m banks defs max_bits ns K Hres HKs true Hok HKd Hc b x1 HI) as [L|O].
+    + left. apply lockstep2_out. exact L.
+    + pose proof O as (x2 & Hb1 & HI2 & HT1 & HF1 & HT & HF).
+      destruct (Nat.eq_dec b 1) as [->|Hne].
+      * change (Nat.eqb 1 1) with true in HT, HF. rewrite HT, HF. right. left. split; [reflexivity|]. split; [reflexivity|].
+        intros r Hr. cbn [outT2 outF2] in Hr.
+        destruct (out_nodes (ss x2) ns) as [vs| |]; try discriminate.
+        destruct (Output.output_stage (Z.to_N max_bits) banks vs) as [[bits items]| |]; try discriminate.
+        inversion Hr; subst. reflexivity.
+      * assert (Hb2 : (2 <= b)%nat) by lia.
+        destruct (loop2S m banks defs max_bits K true ns b 0 b x1) as [[x' n]| |] eqn:ET.
+        -- destruct (one_pass_fwd2 m banks defs max_bits ns K Hres HKs true Hok HKd Hc Hd b x1 _ _ O Hl Hb2 x' n eq_refl) as [-> EF].
+           rewrite EF. cbn [outT2 outF2].
+           destruct (out_nodes (ss x') ns) as [vs| |]; [|left; reflexivity|left; reflexivity].
+           destruct (Output.output_stage (Z.to_N max_bits) banks vs) as [[bits items]| |]; [|left; reflexivity|left; reflexivity].
+           right. right. left. split; [exact Hb2|]. eexists. split; [reflexivity|]. split; reflexivity.
+        -- right. right. right. split; [exact Hb2|]. intros r Hr. discriminate Hr.
+        -- right. right. right. split; [exact Hb2|]. intros r Hr. discriminate Hr.
+Qed.
+
+(* whenever both settings succeed: identical bits, items, banks, symbols and nodes; pass counts equal or (1, 2) *)
+Theorem switch2_same_result b r r' : ON b = Ok r -> OFF b = Ok r' -> set_iters r 0 = set_iters r' 0 /\ counts_ok (r_iters r) (r_iters r').
+Proof.
+  intros H1 H2. destruct (switch2_partial b) as [E|[(-> & E & _)|[(Hb & r0 & E1 & E2 & E3)|(Hb & E)]]].
+  - rewrite E, H2 in H1. inversion H1; subst. split; [reflexivity|now left].
+  - rewrite E in H2. discriminate.
+  - rewrite E1 in H1. inversion H1; subst r0. rewrite E3 in H2. inversion H2; subst r'. split; [reflexivity|]. right. cbn. auto.
+  - exfalso. exact (E r H1).
+Qed.
+
+(* every success with the optimisation at a budget >= 2 is a success without it *)
+Theorem switch2_fwd b r : (2 <= b)%nat -> ON b = Ok r -> exists n', OFF b = Ok (set_iters r n') /\ counts_ok (r_iters r) n'.
+Proof.
+  intros Hb H1. destruct (switch2_partial b) as [E|[(-> & _)|[(_ & r0 & E1 & E2 & E3)|(_ & E)]]].
+  - exists (r_iters r). rewrite <- E, H1. split; [destruct r; reflexivity|now left].
+  - lia.
+  - rewrite E1 in H1. inversion H1; subst r0. exists 2%nat. split; [exact E3|right; auto].
+  - exfalso. exact (E r H1).
+Qed.
+End Switch2.
+
+(* static_known_sound for scoped lookups, in the form of the property statement *)
+Theorem static_known_sound_scoped m ns K :
+  reserved_free2 m ->
+  (forall r, nth_error (k_sym K) r = Some true -> exists d0 e c, In (XConst r d0 e, c) ns /\ const_known e = true) ->
+  forall c st st' addr addr' cg cg', good2 ns st -> good2 ns st' ->
+  pv_agree (global_known2 true m c (k_sym K)) (pvar2 m st c addr cg) (pvar2 m st' c addr' cg') /\
+  asm_agree (pvar2 m st c addr cg) (pvar2 m st' c addr' cg').
+Proof.
+  intros Hres HK c st st' addr addr' cg cg' Hg Hg'.
+  exact (conj (good_agree2 m ns K HK c st st' addr addr' cg cg' Hg Hg') (asm_agree_pvar2 m Hres st c addr cg st' c addr' cg')).
+Qed.
+
+From Coq Require Import String.
+From CA Require Proofs.ResolverSRefuteP.
+(* non-vacuity: `a:` / `.v = 5` / `get` (rule `get => 0x10 @ .v`8`) / `k = $` / `.v = $` / `get` *)
+Definition ex2_rules : text := ResolverSRefuteP.txt ("#ruledef {" ++ ResolverSRefuteP.nl ++ "get => 0x10 @ .v`8" ++ ResolverSRefuteP.nl ++ "}" ++ ResolverSRefuteP.nl)%string.
+Definition ex2_defs : list ruledef := Eval vm_compute in match parse_defs ex2_rules with Some d => d | None => [] end.
+Definition ex2_ps : list pnode := Eval vm_compute in
+  [PLabel 0 (ResolverSRefuteP.txt "a"); PConst 1 (ResolverSRefuteP.txt "v") (ResolverSRefuteP.pe "5"); PInstr (ResolverSRefuteP.txt "get");
+   PConst 0 (ResolverSRefuteP.txt "k") (ResolverSRefuteP.pe "$"); PConst 1 (ResolverSRefuteP.txt "v") (ResolverSRefuteP.pe "$"); PInstr (ResolverSRefuteP.txt "get")].
+Example switch2_nonvacuous :
+  exists r, assembleS2 true true true true ex2_defs ex2_ps 3 = Ok r /\ assemble2 true ex2_defs ex2_ps 3 = Ok r /\
+            r_bits r = [false;false;false;true;false;false;false;false; false;false;false;false;false;true;false;true;
+                        false;false;false;true;false;false;false;false; false;false;false;false;false;false;true;false].
+Proof. vm_compute. eexists. repeat split; reflexivity. Qed.
